@@ -15,7 +15,8 @@ Judge_json(c) ==
       o == Opts0
       n == Len(c.records)
       enc == MapSeq(LAMBDA d : JsonEnc(t, d, names, o, c.wut), c.records)
-      nrm == MapSeq(LAMBDA d : Norm(t, d, names, o), c.records)
+      nrm == MapSeq(LAMBDA d : NormJ(t, d, names, o), c.records)          \* what the JSON text carries
+      bin == MapSeq(LAMBDA d : Norm(t, d, names, o), c.records)           \* what the binary decode returns
   IN IF \E i \in 1..n : ~Conforms(t, c.records[i], names, o) THEN << Cl("H.conforms", "fail") >>
      ELSE IF \E i \in 1..n : ~enc[i].ok \/ ~nrm[i].ok THEN << Cl("C15.enc", "unspec") >>
      ELSE IF ~c.write.ok THEN << Cl("C15.enc", "fail") >>
@@ -23,8 +24,12 @@ Judge_json(c) ==
              \* json_reader applied to that text with the same schema returns the written records; numbers by value (= the binary decode, Norm)
              IF ~c.wut THEN Cl("C15.roundtrip", "skip")
              ELSE Tri("C15.roundtrip", c.read.ok /\ Len(c.read.recs) = n /\ \A i \in 1..n : VEqN(c.read.recs[i], nrm[i].v)),
+             \* records decoded from JSON equal, numbers by value, those decoded from binary - wherever no rounding to binary32/64 intervenes
+             IF ~c.wut \/ ~c.read.ok \/ Len(c.read.recs) # n THEN Cl("C15.binary", "skip")
+             ELSE IF \E i \in 1..n : ~bin[i].ok \/ ~VEqN(bin[i].v, nrm[i].v) THEN Cl("C15.binary", "unspec")
+             ELSE Tri("C15.binary", \A i \in 1..n : VEqN(c.read.recs[i], bin[i].v)),
              IF ~c.wut \/ Len(c.dropped) = 0 THEN Cl("C15.defaults", "skip")
-             ELSE LET nd == MapSeq(LAMBDA d : Norm(t, d, names, o), c.dropped) IN
+             ELSE LET nd == MapSeq(LAMBDA d : NormJ(t, d, names, o), c.dropped) IN
                   IF \E i \in 1..Len(nd) : ~nd[i].ok THEN Cl("C15.defaults", "unspec")
                   ELSE Tri("C15.defaults", c.readdrop.ok /\ Len(c.readdrop.recs) = n
                                            /\ \A i \in 1..n : VEqN(c.readdrop.recs[i], nd[i].v)) >>
